@@ -46,7 +46,10 @@ def frames_of(g):
 
 
 class World:
-    def __init__(self, wd, gens, ctxs):
+    def __init__(self, wd, gens, ctxs, handle_mode='r+', ctx_mode=None):
+        self.handle_mode, self.ctx_mode = handle_mode, ctx_mode
+        self.map_mode = None                      # access mode of the shared map while it is open
+        self.badopen_done = False
         self.wd = wd
         self.gens = list(gens)
         self.ctxs = list(ctxs)
@@ -66,7 +69,7 @@ class World:
         darr = import_darr()
         self.path = os.path.join(self.wd, 'a.darr')
         shutil.copytree(template(), self.path)
-        self.a = darr.Array(self.path, accessmode='r+')
+        self.a = darr.Array(self.path, accessmode=self.handle_mode)
         self.model = np.arange(N, dtype='<f8')
         self.datafile = os.path.realpath(os.path.join(self.path, 'arrayvalues.bin'))
 
@@ -90,17 +93,24 @@ class World:
                 ops.append(('enter', c))
             elif st == 'E' and not inner_open:
                 ops.append(('exit', c))
-        ops += [('read', 0), ('read', 1), ('write', 0), ('write', 1)]
+        ops += [('read', 0), ('read', 1)]
+        # a write is attempted where it is legitimate: the handle is r+, or the shared map was opened r+ by its first user
+        if (self.map_mode or self.handle_mode) == 'r+':
+            ops += [('write', 0), ('write', 1)]
+        if not self.badopen_done and not self.live_users():
+            ops.append(('badopen',))
         return ops
 
     def abstract(self):
-        return {'gens': {g: self.gstate[g] for g in self.gens}, 'ctxs': dict(self.cstate), 'toggle': list(self.toggle)}
+        return {'gens': {g: self.gstate[g] for g in self.gens}, 'ctxs': dict(self.cstate), 'toggle': list(self.toggle),
+                'badopen': self.badopen_done, 'map_mode': self.map_mode}
 
     # ------------------------------------------------------------------ one action on the real object
     def _user_starts(self, name):
         live = self.live_users()
         if not live:
             self.opener = name
+            self.map_mode = (self.ctx_mode or self.handle_mode) if name in self.ctxs else self.handle_mode
         else:
             self._flags['two_users_share_map'] = True
 
@@ -113,6 +123,8 @@ class World:
             self._flags['opener_finishes_while_others_live'] = True
         if self.opener == name:
             self.opener = None
+        if not others:
+            self.map_mode = None
 
     def perform(self, act, checking=True):
         """-> (violations, outcome label)"""
@@ -177,7 +189,7 @@ class World:
             elif kind == 'enter':
                 c = act[1]
                 self._user_starts(c)
-                cm = a.open_array()
+                cm = a.open_array(accessmode=self.ctx_mode)
                 cm.__enter__()
                 self.cobj[c] = cm
                 self.cstate[c] = 'E'
@@ -186,6 +198,25 @@ class World:
                 self.cobj[c].__exit__(None, None, None)
                 self._user_finishes(c)
                 self.cstate[c] = 'X'
+            elif kind == 'badopen':
+                # opening fails part-way (the description file is away for a moment) and, separately, is refused for an
+                # invalid access mode: both must leave the handle as it was (nothing open, later use unaffected)
+                self.badopen_done = True
+                descr = os.path.join(self.path, 'arraydescription.json')
+                os.rename(descr, descr + '.away')
+                try:
+                    try:
+                        a[KS[0]]
+                        bad('read succeeded without the array description', 'a[k] returned although arraydescription.json is missing')
+                    except Exception:  # noqa: BLE001
+                        label = 'refused'
+                finally:
+                    os.rename(descr + '.away', descr)
+                try:
+                    a.open_array(accessmode='w').__enter__()
+                    bad('open_array with an invalid access mode did not raise', "open_array(accessmode='w') returned")
+                except ValueError:
+                    pass
             elif kind == 'read':
                 c = act[1]
                 kk = KS[c]
@@ -299,9 +330,15 @@ def bounds(tier):
     return ['g1', 'g2', 'g3'], ['x1', 'x2']
 
 
-def make_factory(tier):
+def make_factory(tier, variant='rw'):
     gens, ctxs = bounds(tier)
     template()
+    if variant == 'ro':          # read-only handle, the context opens the data read-write
+        gens, ctxs = gens[:1], ctxs[:1]
+
+        def factory(wd):
+            return World(wd, gens, ctxs, handle_mode='r', ctx_mode='r+')
+        return factory, gens, ctxs
 
     def factory(wd):
         return World(wd, gens, ctxs)
@@ -317,9 +354,18 @@ def run(tier):
     res = sched.explore(factory, max_states=400000)
     for (sig, what, replay) in res.violations:
         sig = {k: v for k, v in sig.items() if k != 'diverged'}
-        rep.violation(sig, what, dict(replay, bounds={'gens': gens, 'ctxs': ctxs}))
+        rep.violation(sig, what, dict(replay, bounds={'gens': gens, 'ctxs': ctxs}, variant='rw'))
+    # second, small world: the handle is read-only and the context opens the data read-write (documented use)
+    ro_factory, ro_gens, ro_ctxs = make_factory(tier, 'ro')
+    ro = sched.explore(ro_factory, max_states=400000)
+    for (sig, what, replay) in ro.violations:
+        sig = {k: v for k, v in sig.items() if k != 'diverged'}
+        rep.violation(dict(sig, variant='read-only handle'), 'read-only handle, context opened r+: ' + what,
+                      dict(replay, bounds={'gens': ro_gens, 'ctxs': ro_ctxs}, variant='ro'))
     need = REQUIRED_FLAGS + [f'first_finished:{x}' for x in gens + ctxs]
     missing = [f for f in need if not res.flags.get(f)]
+    if 'write' not in ro.outcomes and not ro.violations:
+        missing.append('a write through a read-only handle inside an r+ context')
     if missing and rep.n_viol == 0 and not rep.known_hits:
         raise HarnessError(f'vacuous schedule exploration: never observed {missing}')
     # validate a handful of BFS histories by running them twice from scratch: same canonical state
@@ -334,15 +380,20 @@ def run(tier):
             raise HarnessError(f'schedule {h} does not reproduce its state (nondeterminism)')
         validated += 1
     cov = {
-        'states': res.states, 'transitions': res.executions, 'traces_validated_against_impl': res.executions,
+        'states': res.states + ro.states, 'transitions': res.executions + ro.executions,
+        'traces_validated_against_impl': res.executions + ro.executions,
+        'readonly_handle_world': {'states': ro.states, 'executions': ro.executions, 'closed': ro.closed,
+                                  'outcomes_per_action': ro.outcomes},
         'samples': [{'schedule': s} for s in res.samples],
         'executions_forked': res.executions, 'max_depth': res.max_depth, 'closed_at_fixpoint': res.closed,
-        'exhaustive': res.closed, 'cap_hit': res.cap_hit, 'executions_killed_or_hung': res.crashed,
+        'exhaustive': res.closed and ro.closed, 'cap_hit': res.cap_hit, 'executions_killed_or_hung': res.crashed,
         'outcomes_per_action': res.outcomes, 'coverage_flags_seen_in_executions': res.flags,
         'reproducibility_reruns': validated,
         'rule': (f'actors: generators {gens} with parameters {jdump({g: GEN_PARAMS[g] for g in gens})} on one Array of {N} float64 '
                  f'(4 MiB) opened r+, contexts {ctxs} (nested, LIFO), reads and writes of two cells (each toggling, each inside the overlap of two '
-                 f'consecutive frames); actions start/advance/close/drop(del+gc) per generator, enter/exit per context, read, write; '
+                 f'consecutive frames); actions start/advance/close/drop(del+gc) per generator, enter/exit per context, read, write, and one '
+                 f'failing open_array(accessmode="w"); a second world has a read-only handle whose context opens the data r+ (writes are '
+                 f'attempted exactly where the shared map is r+); '
                  f'breadth-first search over ALL interleavings to the fixpoint of the state graph (state = actor positions + generic '
                  f'dump of the handle, of every generator frame and of the open descriptors/maps, computed inside the process); every '
                  f'transition is one real execution in its own forked process (history replayed, action performed, oracles evaluated); '
@@ -355,7 +406,9 @@ def run(tier):
 
 def replay(rec):
     tier = 'thorough' if len(rec.get('bounds', {}).get('gens', [])) > 2 else 'quick'
-    factory, gens, ctxs = make_factory(tier)
+    factory, gens, ctxs = make_factory(tier, rec.get('variant', 'rw'))
+    if rec.get('variant') == 'ro' and len(rec.get('bounds', {}).get('gens', [])) == 1:
+        factory, gens, ctxs = make_factory('quick', 'ro')
     h = [tuple(x) for x in rec['schedule']]
     outs = []
     for _ in range(2):
